@@ -1,5 +1,6 @@
 (* Executable model of inhibit/inhibit.go + inhibit/index.go + the parts of store/store.go the inhibitor uses
-   (Set, GC, GC callback). Definitions only (no proofs) so the model still runs when a proof breaks.
+   (Set, GC, GC callback), including the start-up of a new Inhibitor (Inhibitor.run: snapshot from
+   SlurpAndSubscribe first, then the subscription). Definitions only (no proofs) so the model still runs when a proof breaks.
 
    Models the code AFTER the C03 repair (`fix: inhibit: index every cached source alert ...` in /repo): the
    per-rule index maps the fingerprint of the equal-label values to the SET of fingerprints of the cached source
@@ -53,7 +54,12 @@ Inductive op :=
 | OProcess (a : alert)   (* the subscription loop received this alert update (Inhibitor.processAlert) *)
 | OGC (sel : rule -> bool) (* GC tickers fired: store.Alerts.GC + gcCallback on the rules selected by sel (every rule
                               has its own ticker; they are started together, so normally sel = fun _ => true) *)
-| OTick.                 (* nothing but the passing of time *)
+| OTick                  (* nothing but the passing of time *)
+| ORestart (snap pend : list alert).
+  (* configuration reload / restart: a NEW Inhibitor replaces the old one. Inhibitor.run: SlurpAndSubscribe
+     returns the provider's snapshot [snap] (the alerts it holds, in Go map order) and a subscription on which
+     the updates [pend] were published after the snapshot was taken but before it was processed; run processes
+     the snapshot entries first and then the subscription, in publication order. *)
 
 Section Inhibit.
   Variable re : string -> string -> bool.   (* Go regexp full match, see Model/Matchers.v *)
@@ -72,11 +78,16 @@ Section Inhibit.
          (filter (fun kv => resolved_at (snd kv) now = false) (ir_sc r))
          (foldr (fun a ix => ix_del (eqkey (ir_cfg r) (a_lbls a)) (a_lbls a) ix) (ir_ix r) (gc_dead now (ir_sc r))).
 
+  (* NewInhibitor + run's start-up, per rule *)
+  Definition restart_rule (snap pend : list alert) (r : irule) : irule :=
+    foldl (fun r a => process_rule a r) (new_rule (ir_cfg r)) (snap ++ pend).
+
   Definition step (ih : list irule) (now : Z) (o : op) : list irule :=
     match o with
     | OProcess a => map (process_rule a) ih
     | OGC sel => map (fun r => if sel (ir_cfg r) then gc_rule now r else r) ih
     | OTick => ih
+    | ORestart snap pend => map (restart_rule snap pend) ih
     end.
 
   Definition run (ih : list irule) (h : list (Z * op)) : list irule :=
@@ -112,14 +123,55 @@ Section Inhibit.
 
   (* ---------------- specification (the documented rule) ---------------- *)
 
-  (* the last update of fingerprint f in a history *)
+  (* the last update of fingerprint f published in a history (a restart publishes nothing by itself: its
+     snapshot re-reads what the provider holds; the updates that arrived during the load are publications) *)
+  Definition upd1 (f : list (string * string)) (acc : option alert) (a : alert) : option alert :=
+    if bool_decide (a_lbls a = f) then Some a else acc.
   Definition upd_latest (f : list (string * string)) (acc : option alert) (x : Z * op) : option alert :=
     match snd x with
-    | OProcess a => if bool_decide (a_lbls a = f) then Some a else acc
+    | OProcess a => upd1 f acc a
+    | ORestart _ pend => foldl (upd1 f) acc pend
     | _ => acc
     end.
   Definition latest (h : list (Z * op)) (f : list (string * string)) : option alert :=
     foldl (upd_latest f) None h.
+
+  (* What the provider's snapshot must be at a restart at instant t after the publications of [pre]
+     (provider/mem holds the latest update of every fingerprint until its GC removes it once resolved):
+     every entry is the latest update of its fingerprint, and every fingerprint whose latest update is
+     unresolved at t has its entry. Resolved alerts not yet collected by the provider may or may not be there. *)
+  Definition snap_ok (pre : list (Z * op)) (t : Z) (snap : list alert) : Prop :=
+    (forall a, In a snap -> latest pre (a_lbls a) = Some a) /\
+    (forall f a, latest pre f = Some a -> resolved_at a t = false -> In a snap).
+  Definition op_ok (pre : list (Z * op)) (x : Z * op) : Prop :=
+    match snd x with ORestart snap _ => snap_ok pre (fst x) snap | _ => True end.
+  Fixpoint hist_ok (pre h : list (Z * op)) : Prop :=
+    match h with
+    | [] => True
+    | x :: rest => op_ok pre x /\ hist_ok (pre ++ [x]) rest
+    end.
+
+  (* executable forms of the snapshot contract (Run/C03Run.v checks it on every recorded history; Examples) *)
+  Definition op_fps (x : Z * op) : list (list (string * string)) :=
+    match snd x with
+    | OProcess a => [a_lbls a]
+    | ORestart _ pend => map a_lbls pend
+    | _ => []
+    end.
+  Definition hist_fps (h : list (Z * op)) : list (list (string * string)) := flat_map op_fps h.
+  Definition snap_okb (pre : list (Z * op)) (t : Z) (snap : list alert) : bool :=
+    forallb (fun a => bool_decide (latest pre (a_lbls a) = Some a)) snap &&
+    forallb (fun f => match latest pre f with
+                      | Some a => resolved_at a t || bool_decide (a ∈ snap)
+                      | None => true
+                      end) (hist_fps pre).
+  Definition op_okb (pre : list (Z * op)) (x : Z * op) : bool :=
+    match snd x with ORestart snap _ => snap_okb pre (fst x) snap | _ => true end.
+  Fixpoint hist_okb (pre h : list (Z * op)) : bool :=
+    match h with
+    | [] => true
+    | x :: rest => op_okb pre x && hist_okb (pre ++ [x]) rest
+    end.
 
   (* currently firing: the alert's latest update is unresolved at now *)
   Definition firing (h : list (Z * op)) (now : Z) (s : alert) : Prop :=
